@@ -19,6 +19,7 @@ type clientTxnSys struct {
 	net                 *MemNet
 	cconn               *MemConn
 	server              *MemConn
+	decoy               *MemConn // the TURN server address of the client: nothing is ever sent there in this walk
 	saddr               *net.UDPAddr
 	cl                  *turn.Client
 	seed                int64
@@ -65,8 +66,11 @@ func newClientTxnSys(meta Meta, seed int64, _ any) (Sys, error) {
 
 		return nil
 	}
+	// the transactions of this walk go to s.saddr, which is NOT the client's TURN server: every transmission
+	// of a transaction goes to that transaction's own destination
+	s.decoy = s.net.MustListen(&net.UDPAddr{IP: net.IPv4(10, 0, 0, 2).To4(), Port: 3478})
 	cl, err := turn.NewClient(&turn.ClientConfig{
-		STUNServerAddr: s.saddr.String(), TURNServerAddr: s.saddr.String(), Conn: s.cconn, RTO: s.rto,
+		STUNServerAddr: s.saddr.String(), TURNServerAddr: s.decoy.addr.String(), Conn: s.cconn, RTO: s.rto,
 		Username: "u1", Password: "pw-u1", Realm: realm, LoggerFactory: quietLoggerFactory{}, Net: newFakeNet(),
 	})
 	if err != nil {
@@ -101,6 +105,7 @@ func (s *clientTxnSys) Close() {
 	s.cl.Close()
 	_ = s.cconn.Close()
 	_ = s.server.Close()
+	_ = s.decoy.Close()
 }
 
 func (s *clientTxnSys) id(t string) [stun.TransactionIDSize]byte {
@@ -191,6 +196,9 @@ func (s *clientTxnSys) Do(a map[string]any, wait func()) ([]Obs, error) {
 			n = "?unknown"
 		}
 		obs = append(obs, Obs{"k": "sent", "t": n})
+	}
+	for range s.decoy.Drain() {
+		obs = append(obs, Obs{"k": "sent", "t": "?to-the-TURN-server-address"})
 	}
 	s.retMu.Lock()
 	obs = append(obs, s.rets...)
